@@ -103,6 +103,9 @@ pub struct C15Case {
     /// malformed argument (`.cat --last-id "not-an-id"`)
     #[serde(default)]
     pub fail_in_builtin: bool,
+    /// which built-in failure: 0 = `.cat --last-id "not-an-id"`, 1 = a list stream piped into `.append`
+    #[serde(default)]
+    pub builtin_kind: u8,
     pub ret: Val,
     pub suffix: Option<String>,
     pub ret_ttl: Option<WTtl>,
@@ -187,7 +190,7 @@ pub fn strategy() -> BoxedStrategy<C15Case> {
     (
         0u8..3,
         proptest::collection::vec(stmt, 0..=4),
-        (prop_oneof![3 => Just(FailAt::No), 2 => (0u8..5).prop_map(FailAt::Before)], proptest::bool::weighted(0.3)),
+        (prop_oneof![3 => Just(FailAt::No), 2 => (0u8..5).prop_map(FailAt::Before)], proptest::bool::weighted(0.3), 0u8..2),
         val_any(),
         proptest::option::weighted(0.4, proptest::sample::select(vec![".done", ".x", "-r", ".out2"]).prop_map(|s| s.to_string())),
         prop_oneof![
@@ -199,11 +202,12 @@ pub fn strategy() -> BoxedStrategy<C15Case> {
         ],
         proptest::collection::vec((0u8..5, any::<bool>()), 1..=3),
     )
-        .prop_map(|(handler_ctx, appends, (fail, fail_in_builtin), ret, suffix, ret_ttl, triggers)| C15Case {
+        .prop_map(|(handler_ctx, appends, (fail, fail_in_builtin, builtin_kind), ret, suffix, ret_ttl, triggers)| C15Case {
             handler_ctx,
             appends,
             fail,
             fail_in_builtin,
+            builtin_kind,
             ret,
             suffix,
             ret_ttl,
@@ -227,7 +231,9 @@ pub fn render(case: &C15Case, ctxs: &[u128]) -> String {
     s.push_str("  run: {|frame|\n");
     s.push_str("    if $frame.topic == \"fin\" { return \"fin\" }\n");
     s.push_str("    if $frame.topic != \"trig\" { return }\n");
-    let fail_stmt = if case.fail_in_builtin {
+    let fail_stmt = if case.fail_in_builtin && case.builtin_kind % 2 == 1 {
+        "    [1 2] | each {|x| $x} | .append \"streamed\"\n"
+    } else if case.fail_in_builtin {
         "    .cat --last-id \"not-an-id\" | ignore\n"
     } else {
         "    error make {msg: \"boom\"}\n"
